@@ -594,7 +594,7 @@ func (ln tcpKeepAliveListener) Accept() (net.Conn, error) {
 
 // File implements casket.Listener; it returns the underlying file of the listener.
 func (ln tcpKeepAliveListener) File() (*os.File, error) {
-	return ln.TCPListener.File()
+	return listenerFile(ln.TCPListener)
 }
 
 // ErrMaxBytesExceeded is the error returned by MaxBytesReader
